@@ -25,9 +25,9 @@ COMMON_ASSUMPTIONS = [
 PROPS = {
     'C01': dict(
         title='bounded queue: exactly once, FIFO, exclusive published access',
-        quick=[mc('mc_queue', 'all', 'sc', P=2, E=0, budget=150), mc('mc_queue', 'all', 'tso', P=1, D=1, E=1, budget=150), sq('sq_queue', ['--depth', '7'], budget=100)],
+        quick=[mc('mc_queue', 'all', 'sc', P=2, E=0, budget=150), mc('mc_queue', 'all', 'tso', P=1, D=1, E=1, budget=150), sq('sq_queue', ['--depth', '7'], budget=200)],
         thorough=[mc('mc_queue', 'all', 'sc', P=3, E=1, budget=400), mc('mc_queue', 'all', 'tso', P=2, D=2, E=1, budget=400), sq('sq_queue', ['--depth', '10'], budget=300)],
-        oracle='multiset conservation, FIFO for ordered operations, try_ results, HB race detector on slot payload, torn-element check; sequential half (sq_queue): every sequence of the 12 non-blocking / non-blocked operations vs std::deque for capacities 1/2/4, with macro operations that really pass 32766/32767 laps through the queue (16-bit version wrap inside the histories); the fast_forward() short cut used by the concurrent programs that start just before the wrap is compared field by field with the really reached state',
+        oracle='multiset conservation, FIFO for ordered operations, try_ results, HB race detector on slot payload, torn-element check; sequential half (sq_queue): every sequence of the 12 non-blocking / non-blocked operations vs std::deque for capacities 1/2/4, with macro operations that really pass 32766/32767 laps through the queue (16-bit version wrap inside the histories); the fast_forward() short cut used by the concurrent programs that start just before the wrap is compared field by field with the really reached state; three more systems add clear(), swap() with a second queue and reserve_and_clear() to the same / another capacity (one step shallower): reuse after each of them against the same reference',
     ),
     'C02': dict(
         title='bounded queue: no lost wake-up, timed pop',
